@@ -163,6 +163,8 @@ type State struct {
 	wlog    []int // ids of cells written (stores), in order
 	unfolded map[int]bool // recursive spec applications already unfolded in this state (copy on write)
 	nalloc  int           // number of objects moved into symbolic regions on this path
+	focusSchemas bool     // a focused proof state that keeps the instances of quantified preconditions
+	reqFacts []*Term      // the contract's unquantified preconditions (for focus requires)
 	logMark int   // index into log of the most recent loop cut (events before it belong to earlier iterations)
 	gen     map[int]*Term // generalised compound terms (term id -> fresh variable), applied to every later VC
 	focus   []*Term       // when non-nil: later VCs use only these facts (plus what is assumed afterwards)
@@ -190,6 +192,8 @@ func (s *State) fork() *State {
 		logMark: s.logMark,
 		unfolded: s.unfolded,
 		nalloc:  s.nalloc,
+		focusSchemas: s.focusSchemas,
+		reqFacts: s.reqFacts[:len(s.reqFacts):len(s.reqFacts)],
 	}
 	for k, v := range s.store {
 		n.store[k] = v
